@@ -130,7 +130,13 @@ def judge(prog: Program, ref: dict[str, Any], ex: Exec, res: Any, fs: dict[str, 
                                  f"run never shows (it shows {sorted(v0)})"))
                 break
         c1 = ledger_counts(w)
-        extra = {t: c1.get(t, 0) - ref["counts"].get(t, 0) for t in set(c1) | set(ref["counts"])}
+        from .common import count_racy
+
+        # (stages that a jump may hit mid-run are interrupted or not, and run once per completed pass: their counts -
+        # and their synthetic children's - are the schedule's choice, and a crash shifts the schedule)
+        cr = count_racy(prog)
+        extra = {t: c1.get(t, 0) - ref["counts"].get(t, 0) for t in set(c1) | set(ref["counts"])
+                 if not (t.count("_") >= 2 and t.split("_")[1] in cr)}
         if not status_racy:
             over = {t: d for t, d in extra.items() if d > 0}
             under = {t: d for t, d in extra.items() if d < 0 and not _external(prog, t)}
